@@ -63,6 +63,12 @@ pub struct SOp {
     /// units only: do not serialise; deserialise the rendition the property
     /// prescribes ("units serialise as their variant names")
     pub from_model: bool,
+    /// where the caller performs the round trip: 0 = in the ordinary course of the
+    /// thread; 1 = in a `Drop` that runs while the thread unwinds from a (caught)
+    /// panic of the caller; 2 = in the destructor of a thread-local object at thread
+    /// exit (last operation of a thread only, otherwise like 0)
+    #[serde(default)]
+    pub mode: u8,
 }
 
 #[derive(Clone, Debug, PartialEq, Eq, Hash, Serialize, Deserialize)]
@@ -199,7 +205,13 @@ pub fn generate_with(seed: u64, lite: bool) -> SPlan {
             };
             let io_seed = if sw_io && route == Route::JsonStream { r.next() | 1 } else { 0 };
             let from_model = matches!(what, SWhat::Unit { .. }) && r.chance(1, 4);
-            ops.push(SOp { what, route, ser_fault, de_fault, nested, io_seed, from_model });
+            let mode = if r.chance(1, 40) { 1 } else { 0 };
+            ops.push(SOp { what, route, ser_fault, de_fault, nested, io_seed, from_model, mode });
+        }
+        if !lite && r.chance(1, 12) {
+            if let Some(last) = ops.last_mut() {
+                last.mode = 2; // made by a thread-local's destructor at thread exit
+            }
         }
         threads.push(ops);
     }
@@ -248,7 +260,7 @@ pub fn systematic(index: u64) -> SPlan {
     }
     let other = (ty + 1) % STABLE.len();
     let q = |ty, unit, milli| SWhat::Qty { ty, unit, amount: amt::from_milli(milli) };
-    let op = |what, route| SOp { what, route, ser_fault: None, de_fault: None, nested: None, io_seed: 0, from_model: false };
+    let op = |what, route| SOp { what, route, ser_fault: None, de_fault: None, nested: None, io_seed: 0, from_model: false, mode: 0 };
     let first_what = if first_is_unit { SWhat::Unit { ty, unit } } else { q(ty, unit, -12500) };
     let probes = vec![
         op(q(ty, unit, 3250), Route::JsonString),
@@ -321,7 +333,7 @@ pub fn soak(index: u64, ops: u64) -> SPlan {
             x if x % 2 == 0 => Route::JsonString,
             _ => Route::JsonValue,
         };
-        v.push(SOp { what, route, ser_fault: None, de_fault: None, nested: None, io_seed: 0, from_model: false });
+        v.push(SOp { what, route, ser_fault: None, de_fault: None, nested: None, io_seed: 0, from_model: false, mode: if k % 512 == 77 { 1 } else { 0 } });
     }
     let repeat = (ops + SOAK_CYCLE as u64 - 1) / SOAK_CYCLE as u64;
     SPlan { seed: index, backend: amt::BACKEND.to_string(), threads: vec![v], sched: vec![0], alloc_seams: false, lean: true, repeat }
